@@ -363,24 +363,24 @@ Lemma invals_of_reg y m r : node_at y m = Some (NReg r) -> invals_of y m = g_inv
 Proof. intros H. unfold invals_of. now rewrite H. Qed.
 
 (* what a successful write of register n at address a does to a coherent entry that n does not
-   invalidate: either it is the written key itself, or it stays coherent *)
+   invalidate: either it is a block of n itself, or it stays coherent *)
 Lemma entry_after_write y n r vs a buf d e :
   Declared y -> node_at y n = Some (NReg r) -> address r vs = Ok a -> zlen buf = len_of r vs ->
   in_image d a (zlen buf) = true ->
   entry_ok y d e -> zmem n (invals_of y (key_node (fst e))) = false ->
-  fst e = (n, a, len_of r vs) \/ entry_ok y (written d a buf) e.
+  key_node (fst e) = n \/ entry_ok y (written d a buf) e.
 Proof.
   intros HD Hn Ha Hlen Him [[r' [Hm [Hc [H0 [vs' [Ha' Hl']]]]]] Hp] Hz.
   destruct e as [[[m a'] l'] bs]. unfold key_node, key_addr, key_len in *. cbn [fst snd] in *.
+  destruct (Z.eq_dec m n) as [E|Hne]; [now left|right].
   destruct (Z_lt_dec a (a' + l')) as [L1|L1]; [destruct (Z_lt_dec a' (a + zlen buf)) as [L2|L2]|].
-  - assert (Hov : overlap a (len_of r vs) a' (len_of r' vs')) by (unfold overlap; lia).
-    destruct (HD n m r r' vs vs' a a' Hn Hm Ha Ha' Hov) as [[-> [-> El]] | Hin].
-    + left. rewrite El, Hl'. reflexivity.
-    + exfalso. rewrite (invals_of_reg _ _ _ Hm) in Hz.
-      apply zmem_In in Hin. congruence.
-  - right. split; [exists r'; eauto 10|]. unfold key_addr, key_len. cbn [fst snd].
+  - exfalso. assert (Hov : overlap a (len_of r vs) a' (len_of r' vs')) by (unfold overlap; lia).
+    assert (Hne' : n <> m) by congruence.
+    pose proof (HD n m r r' vs vs' a a' Hn Hm Hne' Ha Ha' Hov) as Hin.
+    rewrite (invals_of_reg _ _ _ Hm) in Hz. apply zmem_In in Hin. congruence.
+  - split; [exists r'; eauto 10|]. unfold key_addr, key_len. cbn [fst snd].
     apply peek_written_disjoint; auto; try lia. unfold overlap. lia.
-  - right. split; [exists r'; eauto 10|]. unfold key_addr, key_len. cbn [fst snd].
+  - split; [exists r'; eauto 10|]. unfold key_addr, key_len. cbn [fst snd].
     apply peek_written_disjoint; auto; try lia. unfold overlap. lia.
 Qed.
 
@@ -395,7 +395,7 @@ Qed.
 
 Definition write_tail (on : bool) (n : Z) (r : creg) (a l : Z) (buf : list Z) : M unit :=
   let! _ := m_dev_write a buf in
-  if g_mode r =? WT then m_put on (n, a, l) buf
+  if g_mode r =? WT then (let! _ := m_inval_of n in m_put on (n, a, l) buf)
   else if (g_mode r =? WA) && true then m_inval_of n
   else mret tt.
 
@@ -415,22 +415,27 @@ Proof.
   assert (Hnew : entry_ok y (written (c_dev sc) a buf) ((n, a, l), buf) \/ cacheable r = false).
   { destruct (cacheable r) eqn:Hc; auto. left. apply (entry_new y _ n r a l buf); eauto.
     rewrite <- Hlen. now apply peek_written_same. }
-  assert (Hold : forall e, In e (c_cache sc) -> fst e <> (n, a, l) ->
+  assert (Hold : forall e, In e (c_cache sc) -> key_node (fst e) <> n ->
                            entry_ok y (written (c_dev sc) a buf) e).
   { intros e He Hne. unfold NoDep in Hnd. rewrite Forall_forall in Hi, Hnd.
     destruct (entry_after_write y n r (c_vars sc) a buf (c_dev sc) e) as [E|E]; auto; congruence. }
+  assert (Hdrop : Forall (entry_ok y (written (c_dev sc) a buf)) (c_inval_of n (c_cache sc))).
+  { apply Forall_forall. intros e He. unfold c_inval_of in He. apply filter_In in He as [He Hk].
+    apply Hold; auto. intros E. rewrite E, Z.eqb_refl in Hk. discriminate. }
   destruct (g_mode r =? WT) eqn:Hwt.
-  - unfold m_put. sset. split; auto. unfold c_put at 2. rewrite (sim_empty _ _ _ HS).
-    apply Sim_written; auto. unfold c_put. constructor.
-    + destruct Hnew as [?|Hc]; auto. unfold cacheable in Hc. rewrite Hwt in Hc. discriminate.
-    + apply Forall_forall. intros e He. unfold c_remove in He. apply filter_In in He as [He Hk].
-      apply Hold; auto. intros E. rewrite <- E, key_eqb_refl in Hk. discriminate.
+  - unfold m_inval_of, m_put. sset. split; auto. unfold c_put at 2. rewrite (sim_empty _ _ _ HS).
+    cbn [c_inval_of filter].
+    replace (set_cache (set_cache (set_dev sc (written (c_dev sc) a buf)) (c_inval_of n (c_cache sc)))
+               (c_put true (n, a, l) buf (c_inval_of n (c_cache sc))))
+      with (set_cache (set_dev sc (written (c_dev sc) a buf)) (c_put true (n, a, l) buf (c_inval_of n (c_cache sc))))
+      by reflexivity.
+    replace (set_cache (set_cache (set_dev su (written (c_dev su) a buf)) []) [])
+      with (set_cache (set_dev su (written (c_dev su) a buf)) []) by reflexivity.
+    apply Sim_written; auto. apply Forall_put; auto.
+    destruct Hnew as [?|Hc]; auto. unfold cacheable in Hc. rewrite Hwt in Hc. discriminate.
   - destruct (g_mode r =? WA) eqn:Hwa; cbn [andb].
     + unfold m_inval_of. sset. split; auto. rewrite (sim_empty _ _ _ HS). cbn [c_inval_of filter].
-      apply Sim_written; auto. apply Forall_forall. intros e He.
-      unfold c_inval_of in He. apply filter_In in He as [He Hk].
-      apply Hold; auto. intros E. rewrite E in Hk. unfold key_node in Hk. cbn [fst] in Hk.
-      rewrite Z.eqb_refl in Hk. discriminate.
+      apply Sim_written; auto.
     + unfold mret. sset. split; auto.
       replace (set_dev sc (written (c_dev sc) a buf))
         with (set_cache (set_dev sc (written (c_dev sc) a buf)) (c_cache sc)) by reflexivity.
@@ -440,7 +445,7 @@ Proof.
       apply Sim_written; auto. apply Forall_forall. intros e He.
       apply Hold; auto. intros E.
       rewrite Forall_forall in Hi. destruct (Hi e He) as [[r' [Hm [Hc _]]] _].
-      rewrite E in Hm. unfold key_node in Hm. cbn [fst] in Hm. rewrite Hn in Hm. injection Hm as <-.
+      rewrite E in Hm. rewrite Hn in Hm. injection Hm as <-.
       unfold cacheable in Hc. rewrite Hwt, Hwa in Hc. discriminate.
 Qed.
 
@@ -453,7 +458,7 @@ Lemma sim_write_and_cache y n r buf :
   simM y (m_write_and_cache true cur y n r buf) (m_write_and_cache false cur y n r buf).
 Proof.
   intros HD Hn sc su HS. unfold m_write_and_cache.
-  cbn [fix_raw fix_wa cur]. rewrite !bind_inval_by.
+  cbn [fix_raw fix_wa fix_own cur]. rewrite !bind_inval_by.
   pose proof (sim_inval_by y n sc su HS) as [_ HS1]. unfold m_inval_by in HS1. sset.
   pose proof (NoDep_inval_by y n (c_cache sc)) as Hnd.
   set (sc1 := set_cache sc (c_inval_by y n (c_cache sc))) in *.
@@ -853,7 +858,7 @@ Lemma declared_static_sound y : declared_static y = true -> Declared y.
 Proof.
   unfold declared_static. rewrite andb_true_iff. intros [H1 H2].
   rewrite forallb_forall in H1, H2.
-  intros n m rn rm vs vs' a a' Hn Hm Ha Ha' [O1 O2].
+  intros n m rn rm vs vs' a a' Hn Hm Hne Ha Ha' [O1 O2].
   apply node_at_nth in Hn as [Hn0 Hn]. apply node_at_nth in Hm as [Hm0 Hm].
   assert (In1 : g_index rn = [] /\ len_of rn vs = imm_len rn).
   { specialize (H1 _ (nth_error_In _ _ Hn)). cbn [no_index] in H1. unfold len_of, imm_len.
@@ -873,8 +878,8 @@ Proof.
   rewrite !orb_true_iff in P. destruct P as [[P|P]|P].
   - apply negb_true_iff in P. unfold overlapb in P. apply andb_false_iff in P.
     destruct P as [P|P]; apply Z.ltb_ge in P; lia.
-  - apply Nat.eqb_eq in P. assert (n = m) by lia. subst m. rewrite Hn in Hm. injection Hm as <-. auto.
-  - right. apply zmem_In in P. rewrite Z2Nat.id in P by lia. exact P.
+  - apply Nat.eqb_eq in P. exfalso. apply Hne. lia.
+  - apply zmem_In in P. rewrite Z2Nat.id in P by lia. exact P.
 Qed.
 
 (* ---- the pinned code violates the property ----------------------------------------------------------------- *)
@@ -883,7 +888,7 @@ Definition wit_reg (mode : Z) (inv : list Z) : cnode := NReg (Build_creg 0 0 0 0
 Definition wit_wa : system := Build_system [wit_reg WA []] 1.
 Definition wit_raw : system := Build_system [wit_reg WT [1]; wit_reg WT [0]] 2.
 Definition wit_image : list Z := [255; 255; 255; 255; 255; 255; 255; 255].
-Definition after_fix_wa : ver := {| fix_wa := true; fix_raw := false |}.
+Definition after_fix_wa : ver := {| fix_wa := true; fix_raw := false; fix_own := false |}.
 
 Lemma declared_wit_wa : Declared wit_wa.
 Proof. apply declared_static_sound. vm_compute. reflexivity. Qed.
@@ -954,20 +959,16 @@ Qed.
 
 Lemma declared_ex_bank : Declared ex_bank.
 Proof.
-  intros n m rn rm vs vs' a a' Hn Hm Ha Ha' [O1 O2].
+  intros n m rn rm vs vs' a a' Hn Hm Hne Ha Ha' [O1 O2].
   apply node_at_nth in Hn as [Hn0 Hn]. apply node_at_nth in Hm as [Hm0 Hm].
   cbn [y_nodes ex_bank] in Hn, Hm.
   destruct (Z.to_nat n) as [|[|[|kn]]] eqn:En; cbn [nth_error] in Hn; try discriminate Hn;
     try (destruct kn; discriminate Hn);
   (destruct (Z.to_nat m) as [|[|[|km]]] eqn:Em; cbn [nth_error] in Hm; try discriminate Hm;
     try (destruct km; discriminate Hm));
-  injection Hn as <-; injection Hm as <-.
-  - left. apply bank_address in Ha. apply bank_address in Ha'. unfold len_of in *. cbn [g_len] in *.
-    repeat split; lia.
-  - right. cbn [g_inval]. left. lia.
-  - right. cbn [g_inval]. left. lia.
-  - left. unfold address in Ha, Ha'. cbn [g_index g_base addr_index] in Ha, Ha'.
-    apply Ok_inj in Ha. apply Ok_inj in Ha'. unfold len_of. cbn [g_len]. repeat split; lia.
+  injection Hn as <-; injection Hm as <-; try (exfalso; apply Hne; lia).
+  - cbn [g_inval]. left. lia.
+  - cbn [g_inval]. left. lia.
 Qed.
 
 Lemma hypotheses_satisfiable :
@@ -1023,30 +1024,27 @@ Proof.
   - intros n r bs s'. now apply (cached_bytes_length y s n r bs s').
 Qed.
 
-(* a StringReg whose length is the variable node 0, its own pInvalidator (its keys of different lengths overlap),
-   and a static 2-byte IntReg on its bytes 2..3; each names the other *)
+(* a StringReg whose length is the variable node 0 and a static 2-byte IntReg on its bytes 2..3; each names the
+   other, neither names itself *)
 Definition ex_plen : system :=
   Build_system [NVar 0;
-                NReg (Build_creg 2 0 0 0 0 256 [] (LVar 0) WT [1; 2]);
+                NReg (Build_creg 2 0 0 0 0 256 [] (LVar 0) WT [2]);
                 NReg (Build_creg 0 0 0 0 0 258 [] (LImm 2) WA [1])] 3.
 
 Definition ex_plen_image : list Z := [65; 66; 67; 68; 69; 70; 71; 72].
 
 Lemma declared_ex_plen : Declared ex_plen.
 Proof.
-  intros n m rn rm vs vs' a a' Hn Hm Ha Ha' [O1 O2].
+  intros n m rn rm vs vs' a a' Hn Hm Hne Ha Ha' [O1 O2].
   apply node_at_nth in Hn as [Hn0 Hn]. apply node_at_nth in Hm as [Hm0 Hm].
   cbn [y_nodes ex_plen] in Hn, Hm.
   destruct (Z.to_nat n) as [|[|[|kn]]] eqn:En; cbn [nth_error] in Hn; try discriminate Hn;
     try (destruct kn; discriminate Hn);
   (destruct (Z.to_nat m) as [|[|[|km]]] eqn:Em; cbn [nth_error] in Hm; try discriminate Hm;
     try (destruct km; discriminate Hm));
-  injection Hn as <-; injection Hm as <-.
-  - right. cbn [g_inval In]. left. lia.
-  - right. cbn [g_inval In]. left. lia.
-  - right. cbn [g_inval In]. right. left. lia.
-  - left. unfold address in Ha, Ha'. cbn [g_index g_base addr_index] in Ha, Ha'.
-    apply Ok_inj in Ha. apply Ok_inj in Ha'. unfold len_of. cbn [g_len]. repeat split; lia.
+  injection Hn as <-; injection Hm as <-; try (exfalso; apply Hne; lia).
+  - cbn [g_inval In]. left. lia.
+  - cbn [g_inval In]. left. lia.
 Qed.
 
 (* the length shrinks (8 -> 4) and grows again along the history, the register is written while short; both runs
@@ -1071,15 +1069,19 @@ Lemma plength_example :
   (length (access_log xc) < length (access_log xu))%nat.
 Proof. split; [exact declared_ex_plen|]. vm_compute. repeat split; lia. Qed.
 
-(* The own-key clause of [Declared] cannot be dropped for the code as it is: with the hypothesis worded as in the
-   property text ([DeclaredOthers]: pInvalidator for every node that can alter ANOTHER register's bytes) a
-   WriteThrough register whose length is a variable is not transparent - read it 8 bytes long, make it 4 bytes
-   long, write it (write_and_cache stores (nid, a, 4) and keeps (nid, a, 8)), make it 8 bytes long, read: the
-   cached run answers the block read before the write. *)
+(* THE THIRD DEFECT (repaired by fix_own).  Before it, write_and_cache of a WriteThrough register stored
+   (nid, a, len) and kept the blocks the register had cached under its other keys.  With no pInvalidator at all -
+   the description owes none, no node alters ANOTHER register's bytes - a register whose length is a variable was
+   not transparent: read it 8 bytes long, make it 4 bytes long, write it, make it 8 bytes long, read: the cached
+   run answered the block read before the write.  Neither of the two earlier fixes helps. *)
 Definition ex_plen_noself : system :=
   Build_system [NVar 0; NReg (Build_creg 0 0 0 0 0 256 [] (LVar 0) WT [])] 2.
 
-Lemma others_ex_plen_noself : DeclaredOthers ex_plen_noself.
+Definition ownkeys_history : list cop := [OpValue 1; OpSet 0 [4]; OpSet 1 [16909060]; OpSet 0 [8]; OpValue 1].
+
+Definition before_fix_own : ver := {| fix_wa := true; fix_raw := true; fix_own := false |}.
+
+Lemma declared_ex_plen_noself : Declared ex_plen_noself.
 Proof.
   intros n m rn rm vs vs' a a' Hn Hm Hne.
   apply node_at_nth in Hn as [Hn0 Hn]. apply node_at_nth in Hm as [Hm0 Hm].
@@ -1091,16 +1093,65 @@ Proof.
   lia.
 Qed.
 
-Lemma own_keys_need_self_invalidator :
+Lemma refuted_ownkeys :
   exists y base image vars rej h, DeclaredOthers y /\
-    outputs (run true cur y base image vars rej h) <> outputs (run false cur y base image vars rej h).
+    outputs (run true pinned y base image vars rej h) <> outputs (run false pinned y base image vars rej h) /\
+    outputs (run true before_fix_own y base image vars rej h) <> outputs (run false before_fix_own y base image vars rej h).
 Proof.
-  exists ex_plen_noself, 256, wit_image, [8], [], [OpValue 1; OpSet 0 [4]; OpSet 1 [16909060]; OpSet 0 [8]; OpValue 1].
-  split; [exact others_ex_plen_noself|]. vm_compute. intros H. discriminate H.
+  exists ex_plen_noself, 256, wit_image, [8], [], ownkeys_history.
+  split; [exact declared_ex_plen_noself|]. split; vm_compute; intros H; discriminate H.
 Qed.
 
-(* ... and [Declared] implies the hypothesis of the property text *)
-Lemma declared_others y : Declared y -> DeclaredOthers y.
+(* the same for a self-overlapping selector bank (4-byte slots 2 bytes apart): read slot 1, write slot 0, read slot 1 *)
+Definition ex_bank_noself : system :=
+  Build_system [NVar 0; NReg (Build_creg 0 0 0 0 0 256 [(0, 2)] (LImm 4) WT [])] 2.
+
+Lemma declared_ex_bank_noself : Declared ex_bank_noself.
+Proof.
+  intros n m rn rm vs vs' a a' Hn Hm Hne.
+  apply node_at_nth in Hn as [Hn0 Hn]. apply node_at_nth in Hm as [Hm0 Hm].
+  cbn [y_nodes ex_bank_noself] in Hn, Hm. exfalso. apply Hne.
+  destruct (Z.to_nat n) as [|[|kn]] eqn:En; cbn [nth_error] in Hn; try discriminate Hn;
+    try (destruct kn; discriminate Hn).
+  destruct (Z.to_nat m) as [|[|km]] eqn:Em; cbn [nth_error] in Hm; try discriminate Hm;
+    try (destruct km; discriminate Hm).
+  lia.
+Qed.
+
+Definition bank_history : list cop := [OpSet 0 [1]; OpValue 1; OpSet 0 [0]; OpSet 1 [16909060]; OpSet 0 [1]; OpValue 1].
+
+Lemma refuted_ownkeys_bank :
+  exists y base image vars rej h, DeclaredOthers y /\
+    (forall n r, node_at y n = Some (NReg r) -> exists l, g_len r = LImm l) /\
+    outputs (run true before_fix_own y base image vars rej h) <> outputs (run false before_fix_own y base image vars rej h).
+Proof.
+  exists ex_bank_noself, 256, wit_image, [0], [], bank_history.
+  split; [exact declared_ex_bank_noself|]. split.
+  - intros n r Hn. apply node_at_nth in Hn as [_ Hn]. cbn [y_nodes ex_bank_noself] in Hn.
+    destruct (Z.to_nat n) as [|[|k]]; cbn [nth_error] in Hn; try discriminate Hn.
+    + injection Hn as <-. now exists 4.
+    + destruct k; discriminate Hn.
+  - vm_compute. intros H. discriminate H.
+Qed.
+
+(* ... and the repaired code on the same two systems and histories: equal outputs (an instance of [transparent]),
+   the last read returns the written low half / the overlapped bytes *)
+Lemma ownkeys_repaired :
+  Declared ex_plen_noself /\ Declared ex_bank_noself /\
+  outputs (run true cur ex_plen_noself 256 wit_image [8] [] ownkeys_history) =
+    outputs (run false cur ex_plen_noself 256 wit_image [8] [] ownkeys_history) /\
+  outputs (run true cur ex_plen_noself 256 wit_image [8] [] ownkeys_history) =
+    [2; 0; -1; 1; 0; 1; 0; 1; 0; 2; 0; -4278058236] /\
+  outputs (run true cur ex_bank_noself 256 wit_image [0] [] bank_history) =
+    outputs (run false cur ex_bank_noself 256 wit_image [0] [] bank_history) /\
+  outputs (run true cur ex_bank_noself 256 wit_image [0] [] bank_history) =
+    [1; 0; 2; 0; 4294967295; 1; 0; 1; 0; 1; 0; 2; 0; 4294902018].
+Proof.
+  split; [exact declared_ex_plen_noself|]. split; [exact declared_ex_bank_noself|]. vm_compute. repeat split.
+Qed.
+
+(* the hypothesis of the previous round (own keys need a self-invalidator) implies the present one *)
+Lemma declared_weakened y : DeclaredOwnKeys y -> Declared y.
 Proof.
   intros HD n m rn rm vs vs' a a' Hn Hm Hne Ha Ha' Hov.
   destruct (HD n m rn rm vs vs' a a' Hn Hm Ha Ha' Hov) as [[E _]|H]; [contradiction|exact H].
